@@ -21,7 +21,17 @@ MANIFEST = {
             "the listed finding classes and is refuted (witness theorems) inside each; model tied to the code by a "
             "PRINT correspondence (text, predicted round trip, finding classes) exhaustive over all parent/child "
             "combinations of depth 2 and sampled deeper, and the property itself searched on the real parser / "
-            "formatter / CLI binary (all depth-3 combinations, random programs with comments, widths 1..120)",
+            "formatter / CLI binary (all depth-3 combinations, random programs with comments, widths 1..120). "
+            "The multi-line layouts of formatter.rs are inside the theorems at the token-stream level: for every tree, "
+            "every max_columns and indentation, every layout of the formatter model (coq/Formatter.v) denotes the same "
+            "pest token stream as the one-line printer (C07_layout_preserves_items, also for any oracle record with the "
+            "stated interface), hence the Pratt parser returns the tree from the formatter's token stream at every width "
+            "(C07_format_roundtrip_items); PARTIAL: that the layout's TEXT has exactly those tokens "
+            "(C07_layout_preserves_tokens_full) and that its line breaks are where grammar.pest admits NEWLINE "
+            "(C07_layout_parses_full) are stated, not proved: decided on every run by the FORMAT-items stream (real "
+            "format_expr output at the widths where the layout changes, under the lexical view toks/canon evaluated by "
+            "vm_compute and by a Python twin) and by the re-parse search; the code before fixes/C07-crlf-lines.diff is "
+            "refuted (C07_layout_crlf_refuted, finding F55)",
     "note": "trusted: Coq kernel + vm_compute; translate/prec_table.py; hand transcription of ast_to_source.rs and of "
             "pest's Pratt parser (both validated by correspondence on every run); the character level of the grammar "
             "(token lexing, NEWLINE admission in the multi-line layouts of formatter.rs) is decided by search on the "
@@ -43,6 +53,7 @@ PROBES = {
     "do-minus": ("print", "do {\n  a; -b\n  return 1\n}", 0),
     "if-newline": ("format", "x = if aaaaaaaaaa then 1 else 2", 10),
     "do-comment": ("format", "do {\n  q = 1// c2\n  return q\n}", 0),
+    "crlf-lines": ("format", "xs = [1]\nr = xs via x => \"a\r\nb\"", 0),
 }
 PARENS_CLASSES = ["unary-operand", "postfix-operand", "open-left", "binary-right", "binary-left", "lambda-body"]
 WIDTHS_QUICK = [0, 1, 8, 20, 40]
@@ -101,7 +112,33 @@ def format_classes(src, r):
     cl = set()
     if if_newline(r["Ltext"]):
         cl.add("if-newline")
+    if crlf_lines(src):
+        cl.add("crlf-lines")
     return cl
+
+
+def crlf_lines(src):
+    """the inputs of finding F55: a "\\r\\n" (only possible inside a string literal once parsed) in a program that
+    uses via / into / where (format_binary_op_multiline re-assembles a lambda right operand from str::lines())"""
+    return "\r\n" in src and re.search(r"\b(via|into|where)\b", src) is not None
+
+
+# CR / CRLF inside string literals of via / into / where right-hand lambdas (and controls elsewhere)
+CRLF_FAMILY = [
+    'xs = [1]\nr = xs via x => "a\r\nb"',
+    'xs via x => "a\r\nb"',
+    'xs into x => "a\r\n\r\nb" + x',
+    'xs where (x, i) => x == "p\r\nq"',
+    'xs via x => do {\n  y = "l1\r\nl2"\n  return y + x\n}',
+    'xs via x => {k: "a\r\nb", j: [x, "c\rd"]}',
+    '(xs via x => "a\r\nb") via y => y',
+    'f(xs via x => "a\r\nb", 2)',
+    '[xs into x => \'q\r\n"r\', 1]',
+    's = "a\r\nb"',
+    '["a\r\nb", "c\rd"] via x => x',
+    'xs via x => "a\rb"',
+    'xs via x => "a\nb"',
+]
 
 
 def if_newline(text):
@@ -174,6 +211,15 @@ def replay_case(h, cli, path):
     src = rp["source"]
     w = rp.get("width", 0)
     bad = False
+    if rp.get("stream") == "format-items":
+        r = run_fmtitems(h, [(src, w)])[0]
+        bad = isinstance(r, str)
+        for st in ([] if bad else r):
+            a, b = py_view(st["out"]), py_view(st["one"])
+            print("format_expr (width %s): %r\n  view %r\nexpr_to_source: %r\n  view %r" % (w or "default", st["out"], a, st["one"], b))
+            bad = bad or a != b
+        print("REPRODUCED" if bad else "not reproduced")
+        return 1 if bad else 0
     if rp.get("stream") == "print":
         r = run_print(h, [src])[0]
         print("expr_to_source round trip:", r if isinstance(r, str) else [(s["text"], s["rt"]) for s in r])
@@ -194,6 +240,188 @@ def replay_case(h, cli, path):
                     bad = bad or v != "SAME"
     print("REPRODUCED" if bad else "not reproduced")
     return 1 if bad else 0
+
+
+# ---------------------------------------------------------------------- FORMAT-items (C07L)
+REQ_L = REQ + ["Blots.Formatter", "Blots.FmtTokens"]
+_DELIMS = "()[]{},:"
+
+
+def py_toks(s):
+    """twin of FmtTokens.toks (over the UTF-8 bytes, like the Coq string)"""
+    b = s.encode("utf-8") if isinstance(s, str) else s
+    out, cur, mode, q = [], bytearray(), "code", 0
+
+    def flush():
+        if cur:
+            out.append(bytes(cur))
+            cur.clear()
+    for ch in b:
+        if mode == "code":
+            if ch in (32, 9, 10, 13):
+                flush()
+            elif ch in _DELIMS.encode():
+                flush()
+                out.append(bytes([ch]))
+            elif ch in (34, 39):
+                flush()
+                cur.append(ch)
+                mode, q = "str", ch
+            elif ch == 47 and cur and cur[-1] == 47:
+                cur.pop()
+                flush()
+                mode = "com"
+            else:
+                cur.append(ch)
+        elif mode == "str":
+            cur.append(ch)
+            if ch == q:
+                out.append(bytes(cur))
+                cur.clear()
+                mode = "code"
+        else:
+            if ch == 10:
+                mode = "code"
+    flush()
+    return out
+
+
+def _is_name(t):
+    return len(t) > 0 and all(48 <= ch <= 57 or 65 <= ch <= 90 or 97 <= ch <= 122 or ch == 95 for ch in t)
+
+
+def py_canon(l):
+    """twin of FmtTokens.canon"""
+    out, i = [], 0
+    while i < len(l):
+        t = l[i]
+        if t == b"," and i + 1 < len(l) and l[i + 1] in (b")", b"]", b"}"):
+            i += 1
+        elif t == b"(" and i + 3 < len(l) and _is_name(l[i + 1]) and l[i + 2] == b")" and l[i + 3] == b"=>":
+            out += [l[i + 1], l[i + 3]]
+            i += 4
+        else:
+            out.append(t)
+            i += 1
+    return out
+
+
+def py_view(s):
+    return py_canon(py_toks(s))
+
+
+def run_fmtitems(h, cases):
+    outs = c.harness_lines_resilient(h, "fmtitems07", ["%s\t%d" % (hx(s), w) for s, w in cases])
+    res = []
+    for o in outs:
+        if o in ("REJECT", "GLUEERR", "BADUTF8", "") or o.startswith("PANIC") or o.startswith("ABORT"):
+            res.append(o or "EMPTY")
+            continue
+        stmts = []
+        for st in o.split(" ;; "):
+            f = st.split(" | ")
+            if len(f) != 3:
+                stmts = None
+                break
+            stmts.append({"kind": f[0][0], "term": f[0][2:], "outhex": f[1],
+                          "out": bytes.fromhex(f[1]).decode("utf-8", "replace"),
+                          "one": bytes.fromhex(f[2]).decode("utf-8", "replace")})
+        res.append(stmts if stmts is not None else "BADLINE " + o[:200])
+    return res
+
+
+def format_items_stream(h, res, rng, tier, flags, sources, crlf_open, failures):
+    """FORMAT-items: what format_expr really outputs, at the widths where its layout changes, under the
+    layout-erasing view of coq/FmtTokens.v.  Per statement:
+      (impl)  view(format_expr(ast, w)) == view(expr_to_source(ast))           [Python twin of toks/canon]
+      (model) lview(real output) evaluated by vm_compute == lview(print_text FX ast) (the model's one-line
+              text, = items_text7 o print_items by C07_items_render), and the Coq view == the twin's view."""
+    sources = list(dict.fromkeys(sources))
+    wide = run_fmtitems(h, [(s, 100000) for s in sources])
+    cases = []
+    for s, r in zip(sources, wide):
+        if isinstance(r, str) or not r:
+            continue
+        L = max(max(len(line) for line in st["out"].split("\n")) for st in r)
+        for w in sorted({L, max(1, L - 1), max(1, L // 2), max(1, (2 * L) // 3), 1, 1 + rng.below(max(2, L))}):
+            cases.append((s, w))
+    got = run_fmtitems(h, cases)
+    exprs, index = [], []
+    n_stmt = n_multi = impl_diff = covered = skipped_num = 0
+    kinds = {}
+    for ci, r in enumerate(got):
+        if isinstance(r, str):
+            if r.startswith("PANIC") or r.startswith("ABORT") or r.startswith("BADLINE"):
+                res.violation("format_expr aborts on a generated program",
+                              {"stream": "format-items", "source": cases[ci][0], "width": cases[ci][1], "observed": r})
+            continue
+        for j, st in enumerate(r):
+            n_stmt += 1
+            multi = "\n" in st["out"]
+            m = re.match(r"\(?(E[A-Za-z]+)", st["term"])
+            root = m.group(1) if m else "?"
+            if root == "EOutput":
+                m2 = re.match(r"\(EOutput \(?(E[A-Za-z]+)", st["term"])
+                root = "EOutput/" + (m2.group(1) if m2 else "?")
+            k = kinds.setdefault(root, {"statements": 0, "multi_line": 0})
+            k["statements"] += 1
+            k["multi_line"] += multi
+            n_multi += multi
+            va, vb = py_view(st["out"]), py_view(st["one"])
+            if va != vb:
+                impl_diff += 1
+                src, w = cases[ci]
+                if crlf_open and crlf_lines(src):
+                    covered += 1
+                    failures["crlf-lines"] = failures.get("crlf-lines", 0) + 1
+                elif len(res.violations) < 5:
+                    res.violation("a layout of format_expr changes the token stream of the expression (other than blanks, "
+                                  "line breaks, trailing commas, single-parameter parentheses)",
+                                  {"stream": "format-items", "driver": "format_expr", "source": src, "width": w,
+                                   "observed": {"formatted": st["out"][:2000],
+                                                "view": [t.decode("utf-8", "replace") for t in va][:400]},
+                                   "expected": {"expr_to_source": st["one"][:2000],
+                                                "view": [t.decode("utf-8", "replace") for t in vb][:400]},
+                                   "rerun": "./check C07 --replay <this file>"})
+            if not modelled_numbers(st["term"]):
+                skipped_num += 1
+                continue
+            exprs.append('show_fmtview %s %d%%nat %s (hx "%s")' % (coq_fx(flags), cases[ci][1], st["term"], st["outhex"]))
+            index.append((ci, j))
+    try:
+        model = c.coq_eval_batch(REQ_L, "", exprs, "c07fmtitems")
+    except c.BrokenTie as e:
+        res.tie_broken(e.what, e.detail)
+        model = [None] * len(exprs)
+    mism, validated, model_diff = [], 0, 0
+    for (ci, j), m in zip(index, model):
+        st = got[ci][j]
+        src, w = cases[ci]
+        if m is None:
+            mism.append((src, w, "model evaluation failed"))
+            continue
+        verdict, _, vhex = m.partition(" ")
+        twin = ",".join(t.hex() for t in py_view(st["out"]))
+        impl_same = py_view(st["out"]) == py_view(st["one"])
+        if vhex.lower() != twin:
+            mism.append((src, w, "toks/canon: Coq view and twin view of the real output differ: %r" % st["out"][:300]))
+        elif (verdict == "SAME") != impl_same:
+            mism.append((src, w, "the model says %s (lview of the real output vs lview of print_text), the implementation "
+                                 "texts say %s: %r" % (verdict, "SAME" if impl_same else "DIFF", st["out"][:300])))
+        else:
+            validated += 1
+            model_diff += verdict != "SAME"
+    if mism:
+        res.tie_broken("correspondence C07/FORMAT-items: %d of %d statements" % (len(mism), len(exprs)),
+                       "first: source %r width %d: %s" % mism[0])
+    res.streams["FORMAT-items"] = {
+        "programs": len(sources), "cases_program_x_width": len(cases), "statements": n_stmt,
+        "multi_line_outputs": n_multi, "by_root_node_kind": dict(sorted(kinds.items())),
+        "widths": "per program: L = longest line of the widest layout; {L, L-1, 2L/3, L/2, 1, one random below L}",
+        "impl_view_differs": impl_diff, "covered_by_open_finding_crlf_lines": covered,
+        "model_statements": len(exprs), "model_validated": validated, "model_view_differs": model_diff,
+        "mismatches": len(mism), "skipped_number_text_oracle": skipped_num}
+    return len(cases)
 
 
 def main(argv):
@@ -345,6 +573,9 @@ def main(argv):
     ctx_progs = [sx for sx, _, _ in X.programs(rng, 200 if tier == "quick" else 20000)]
     for sx in ctx_progs:
         fcases.append((sx, rng.choice([0, 0, 40, 1 + rng.below(120)])))
+    for sx in CRLF_FAMILY:
+        for w in WIDTHS_QUICK + [30, 1 + rng.below(120)]:
+            fcases.append((sx, w))
     fr = run_format(h, fcases)
     n_eval += len(fcases)
     # classes of the inputs (from the AST, by the harness twin of Printer.v known_classes)
@@ -410,6 +641,8 @@ def main(argv):
                 cl.add("do-comment")
             if if_newline(pairs[k][1]):
                 cl.add("if-newline")
+            if crlf_lines(pairs[k][0]):
+                cl.add("crlf-lines")
             classify_and_report("format", pairs[k][0], 0, cl, {"binary_output": pairs[k][1][:2000], "reparse": eqs[k]},
                                 "cli-binary")
     n_eval += len(cli_cases)
@@ -420,6 +653,14 @@ def main(argv):
                                     "failures_covered_by_open_findings": failures,
                                     "tree_kinds": dict(sorted(tg.stats.items())[:60]),
                                     "eval_program_stats": evgen.stats}
+    # ------------------------------------------------------------------ FORMAT-items (the layouts, C07L)
+    fi_sources = ([fam[rng.below(len(fam))] for _ in range(500 if tier == "quick" else 4212)]
+                  + fam3[: (300 if tier == "quick" else 6000)] + progs[: (150 if tier == "quick" else 3000)]
+                  + evprogs[: (60 if tier == "quick" else 1000)] + ctx_progs[: (60 if tier == "quick" else 2000)]
+                  + CRLF_FAMILY)
+    n_fi = format_items_stream(h, res, rng, tier, flags, fi_sources,
+                               "crlf-lines" in open_classes, failures)
+    n_eval += n_fi
     res.coverage["evaluations"] = n_eval + len(corr_cases)
     res.coverage["distinct_nontrivial"] = len(distinct)
     res.coverage["rule"] = ("distinct parsed programs whose printed / formatted text was produced and re-parsed "
